@@ -303,7 +303,10 @@ def buildBody (junk : UInt8) (body : Option Bytes) (data : Bytes) (offset total 
   | none => none
   | some b =>
     if offset + data.length ≤ total ∧ b.length ≥ total then some (memcpyAt b offset data)
-    else some (memcpyAt (resizeBin junk b (offset + data.length)) offset data)
+    else
+      -- "Payloads already stored beyond this one must be kept": new_length = max(offset + length, body_data->length)
+      let newLen := if offset + data.length < b.length then b.length else offset + data.length
+      some (memcpyAt (resizeBin junk b newLen) offset data)
 
 /-! ## receiver side of a Block1 transfer in COAP_BLOCK_SINGLE_BODY mode (coap_handle_request_put_block) -/
 
@@ -334,20 +337,36 @@ def recvLoop (cap : Nat) : Nat → Ranges → Nat → Bool → Option (Ranges ×
       | (false, _) => none
       | (true, r) => recvLoop cap cnt r (n + 1) true
 
+/-- "give_app_data": `if (lg_srcv->body_data) { body_data = body_data->s; body_length = total_len } else { NULL; 0 }` -/
+def srcvGive (lg1 : Srcv) : SrcvOut :=
+  match lg1.body with
+  | some b => .deliver b lg1.totalLen
+  | none => .deliver [] 0
+
+/-- fix 8abfc44: "total_blocks = total_len / chunk + (total_len % chunk ? 1 : 0)" (size_t; before the fix
+`(uint32_t)(total_len + chunk - 1) / chunk`, which wraps to 0 for a Size1 close to 2^32) -/
+def totalBlocks (totalLen chunk : Nat) : Nat :=
+  totalLen / chunk + (if totalLen % chunk ≠ 0 then 1 else 0)
+
 /-- the completion decision after the block has been recorded ("if (block.m || !check_all_blocks_in(…))" … "give_app_data") -/
 def srcvDecide (lg1 : Srcv) (m chunk : Nat) : Option Srcv × SrcvOut :=
-  let allIn := checkAllBlocksIn lg1.recv ((lg1.totalLen + chunk - 1) % 2 ^ 32 / chunk)
+  let allIn := checkAllBlocksIn lg1.recv (totalBlocks lg1.totalLen chunk)
   if m = 1 then
     -- the body can only be complete once the block without More has been seen (fix 57e6aff)
     if ¬ lg1.noMoreSeen ∨ ¬ allIn then (some lg1, .cont)            -- 2.31, ask for the next block
-    else (none, .deliver (lg1.body.getD []) lg1.totalLen)           -- give_app_data, lg_srcv freed by the caller
+    else (none, srcvGive lg1)                                       -- give_app_data, lg_srcv freed by the caller
   else if ¬ allIn then (some { lg1 with noMoreSeen := true }, .cont)   -- "Last chunk - but not all in": empty ACK
-  else (none, .deliver (lg1.body.getD []) lg1.totalLen)
+  else (none, srcvGive lg1)
 
 /-- record blocks `n … n+cnt-1` (units `2^(szxU+4)`), store `data` at `offset`, decide -/
 def srcvCore (cap : Nat) (junk : UInt8) (lg : Srcv) (n szxU m : Nat) (data : Bytes) (offset : Nat) :
     Option Srcv × SrcvOut :=
   let chunk := 2 ^ (szxU + 4)
+  -- fix cb35487: "Only the end of the body can be shorter than the block size, and nothing can follow the block
+  -- without More": 4.08 "Inconsistent last block", lg_srcv freed
+  if (data.length % chunk ≠ 0 ∧ offset + data.length < lg.totalLen) ∨
+      (lg.noMoreSeen = true ∧ offset + data.length > lg.totalLen) then (none, .fail)
+  else
   match recvLoop cap ((data.length + chunk - 1) / chunk) lg.recv n false with
   | none => (none, .fail)                       -- "Too many missing blocks", lg_srcv freed
   | some (rec', updated) =>
@@ -365,15 +384,23 @@ def srcvLocate (maxBlk : Nat) (st : Option Srcv) (num szx : Nat) (size1 : Option
   | none => { recv := [], totalLen := (match size1 with | some t => t | none => 0), body := none,
               szx := if num = 0 ∧ maxBlk ≠ 0 ∧ maxBlk < szx then maxBlk else szx }
 
-/-- fix 0d17941: a block that still uses a larger size covers several blocks of the tracked size -/
+/-- fix 11109ea: "range[i].begin <<= shift; range[i].end = ((range[i].end + 1) << shift) - 1" (all uint32_t) -/
+def rescaleRanges (rs : Ranges) (sh : Nat) : Ranges :=
+  rs.map fun r => ((r.1 * 2 ^ sh) % 2 ^ 32, ((((r.2 + 1) % 2 ^ 32) * 2 ^ sh) % 2 ^ 32 + (2 ^ 32 - 1)) % 2 ^ 32)
+
+/-- fix 0d17941: a block that still uses a larger size covers several blocks of the tracked size;
+fix 11109ea: a block in a smaller size makes that size the tracked one, the ranges received so far are rescaled -/
 def srcvConv (cap : Nat) (junk : UInt8) (lg : Srcv) (num m szx : Nat) (data : Bytes) : Option Srcv × SrcvOut :=
   if szx > lg.szx then srcvCore cap junk lg ((num * 2 ^ (szx - lg.szx)) % 2 ^ 32) lg.szx m data (num * 2 ^ (szx + 4))
+  else if szx < lg.szx then
+    srcvCore cap junk { lg with recv := rescaleRanges lg.recv (lg.szx - szx), szx := szx } num szx m data (num * 2 ^ (szx + 4))
   else srcvCore cap junk lg num szx m data (num * 2 ^ (szx + 4))
 
 /-- One Block1 request datagram `(num, m, szx, payload, size1)` arriving at the server for an existing or new
 `lg_srcv` (`st = none`: not yet allocated) in COAP_BLOCK_SINGLE_BODY mode, Block1 without BERT/Q-Block;
 `maxBlk` = COAP_BLOCK_MAX_SIZE_GET(block_mode).  Transcribes "if (length > block.chunk_size)" … "give_app_data" of
-`coap_handle_request_put_block` including the unit conversion of fix 0d17941. -/
+`coap_handle_request_put_block` including the unit conversions of fixes 0d17941 / 11109ea and the last-block test of
+fix cb35487. -/
 def srcvStep (cap : Nat) (junk : UInt8) (maxBlk : Nat) (st : Option Srcv) (num m szx : Nat) (payload : Bytes)
     (size1 : Option Nat) : Option Srcv × SrcvOut :=
   let chunk0 := 2 ^ (szx + 4)
